@@ -11,6 +11,9 @@
 //!                                  queue one server frame (DhcpRepr::emit in UDP/IPv4/Ethernet) for the next poll
 //!   arp spa=<ip>                   queue an ARP reply from <ip> to the interface's current address
 //!   setmaxlease <us|->  | reset | setnaks <0|1> | setretry disc=.. req=.. retries=.. minrenew=.. maxrenew=..
+//!   setports <server> <client> | setrxbuf | setopts <-|kind:len,kind:len..> | setprl <hex|->   (run-time setters; `rejected` is
+//!                                  printed when the setter refuses the value: data longer than 255 octets)
+//!   header rxck=0: the device announces Tx-only IPv4/UDP checksum capabilities (no verification on receive)
 //! Observation lines (per poll): `tx dhcp …` / `tx arp …` / `tx other …` for every transmitted frame, `ev …`, `pollat …`;
 //! `PANIC` if Interface::poll panicked (the case stops there).
 use smoltcp::iface::{Config, Interface, SocketHandle, SocketSet};
@@ -58,6 +61,19 @@ fn kv(op: &str) -> BTreeMap<String, String> {
         .filter_map(|t| t.split_once('=').map(|(k, v)| (k.to_string(), v.to_string())))
         .collect()
 }
+fn parse_opts(s: &str) -> Vec<(u8, Vec<u8>)> {
+    if s == "-" {
+        return vec![];
+    }
+    s.split(',')
+        .map(|t| {
+            let (k, l) = t.split_once(':').expect("kind:len");
+            let k: u8 = k.parse().unwrap();
+            let l: usize = l.parse().unwrap();
+            (k, (0..l).map(|i| k.wrapping_add(i as u8)).collect())
+        })
+        .collect()
+}
 fn dur(s: &str) -> Duration {
     if s == "max" {
         Duration::MAX
@@ -84,10 +100,17 @@ pub struct TxDhcp {
     pub src: Ipv4Address,
     pub dst: Ipv4Address,
     pub eth_bcast: bool,
+    pub sport: u16,
+    pub dport: u16,
+    /// options of the message that are not among the ones the socket itself writes (kind, data), in order
+    pub extra: Vec<(u8, Vec<u8>)>,
+    pub prl: Option<Vec<u8>>,
 }
 
 #[derive(Default, Clone, Debug)]
 pub struct StepObs {
+    pub n_other: usize,
+    pub oversize: usize,
     pub lines: Vec<String>,
     pub polled: bool,
     pub t: i64,
@@ -137,6 +160,11 @@ impl Sim {
     pub fn new(c: &Case) -> Sim {
         let mtu = c.get_i("mtu", 1514) as usize;
         let mut dev = QDev::new(Medium::Ethernet, mtu);
+        if c.get_i("rxck", 1) == 0 {
+            // receive-side IPv4/UDP checksum verification off (e.g. done by the hardware): Tx-only capabilities
+            dev.checksum.ipv4 = smoltcp::phy::Checksum::Tx;
+            dev.checksum.udp = smoltcp::phy::Checksum::Tx;
+        }
         let mut cfg = Config::new(HardwareAddress::Ethernet(EthernetAddress(OWN_MAC)));
         cfg.random_seed = c.get("seed").map(|s| s.parse().unwrap()).unwrap_or(1);
         let iface = Interface::new(cfg, &mut dev, Instant::ZERO);
@@ -177,6 +205,9 @@ impl Sim {
         Sim { dev, iface, sockets, h, apply: c.get_i("apply", 1) != 0, now: 0, cur_xid: 1, prev_xid: None, last_pollat: None, max_lease: ml, dead: false }
     }
 
+    pub fn rx_pending(&self) -> usize {
+        self.dev.rx.len()
+    }
     fn sock(&mut self) -> &mut dhcpv4::Socket<'static> {
         self.sockets.get_mut::<dhcpv4::Socket>(self.h)
     }
@@ -314,7 +345,10 @@ impl Sim {
     }
 
     fn parse_tx(&mut self, f: &[u8], o: &mut StepObs) {
-        let other = |o: &mut StepObs, why: &str| o.lines.push(format!("tx other {} len={}", why, f.len()));
+        let other = |o: &mut StepObs, why: &str| {
+            o.n_other += 1;
+            o.lines.push(format!("tx other {} len={}", why, f.len()))
+        };
         let Ok(e) = EthernetFrame::new_checked(f) else { return other(o, "eth") };
         let ethdst = if e.dst_addr().is_broadcast() { "bcast".to_string() } else { format!("{}", e.dst_addr()) };
         match e.ethertype() {
@@ -386,7 +420,13 @@ impl Sim {
                     d.secs,
                     ir.hop_limit
                 ));
+                const OWN_KINDS: [u8; 12] = [53, 61, 54, 3, 1, 50, 57, 51, 58, 59, 55, 6];
+                let extra: Vec<(u8, Vec<u8>)> = dp.options().filter(|op| !OWN_KINDS.contains(&op.kind)).map(|op| (op.kind, op.data.to_vec())).collect();
                 o.tx.push(TxDhcp {
+                    sport: ur.src_port,
+                    dport: ur.dst_port,
+                    extra,
+                    prl: d.parameter_request_list.map(|x| x.to_vec()),
                     kind: kind.to_string(),
                     xid: d.transaction_id,
                     rel,
@@ -423,6 +463,8 @@ impl Sim {
         o.n_rx = self.dev.n_rx - rx_before;
         let frames = self.dev.drain_tx();
         o.n_frames = frames.len();
+        o.oversize = self.dev.oversize.len();
+        self.dev.oversize.clear();
         for f in &frames {
             self.parse_tx(f, o);
         }
@@ -537,6 +579,33 @@ impl Sim {
                 let b = w[1] != "0";
                 self.sock().set_ignore_naks(b);
             }
+            "setports" => {
+                let (sp, cp): (u16, u16) = (w[1].parse().unwrap(), w[2].parse().unwrap());
+                self.sock().set_ports(sp, cp);
+            }
+            "setrxbuf" => {
+                let b: &'static mut [u8] = Box::leak(vec![0u8; 1024].into_boxed_slice());
+                self.sock().set_receive_packet_buffer(b);
+            }
+            "setopts" => {
+                // setopts -  |  setopts <kind>:<len>,<kind>:<len>...   (data byte i of an option = kind + i)
+                let opts = parse_opts(w[1]);
+                let datas: &'static Vec<Vec<u8>> = Box::leak(Box::new(opts.iter().map(|(_, d)| d.clone()).collect()));
+                let v: Vec<DhcpOption<'static>> = opts.iter().zip(datas.iter()).map(|((k, _), d)| DhcpOption { kind: *k, data: &d[..] }).collect();
+                let sl: &'static [DhcpOption<'static>] = Box::leak(v.into_boxed_slice());
+                let sock = self.sockets.get_mut::<dhcpv4::Socket>(self.h);
+                // the setter refuses (documented panic) data longer than 255 octets
+                if std::panic::catch_unwind(AssertUnwindSafe(|| sock.set_outgoing_options(sl))).is_err() {
+                    o.lines.push("rejected".into());
+                }
+            }
+            "setprl" => {
+                let b: &'static [u8] = Box::leak(unhex(w[1]).into_boxed_slice());
+                let sock = self.sockets.get_mut::<dhcpv4::Socket>(self.h);
+                if std::panic::catch_unwind(AssertUnwindSafe(|| sock.set_parameter_request_list(b))).is_err() {
+                    o.lines.push("rejected".into());
+                }
+            }
             "setretry" => {
                 let mut rc = self.sock().get_retry_config();
                 if let Some(v) = m.get("disc") {
@@ -614,6 +683,9 @@ struct Oracle {
     silenced_until: i64,
     first_poll: bool,
     arith: bool,
+    rxck: bool,
+    opts: Vec<(u8, Vec<u8>)>,
+    prl: Vec<u8>,
     pub fails: Vec<String>,
     pub stats: BTreeMap<String, u64>,
 }
@@ -650,6 +722,9 @@ impl Oracle {
             silenced_until: i64::MIN,
             first_poll: true,
             arith: c.get_i("arith", 0) != 0,
+            rxck: c.get_i("rxck", 1) != 0,
+            opts: vec![],
+            prl: vec![1, 3, 6],
             fails: vec![],
             stats: BTreeMap::new(),
         }
@@ -670,7 +745,8 @@ impl Oracle {
         };
         // RFC 1122 3.3.6 (process_ethernet): a link-layer broadcast must carry an IP broadcast/multicast destination
         let link_ok = !m.eth_bcast || m.ipdst.is_multicast() || m.ipdst.is_broadcast() || self.cidr.and_then(|c| c.broadcast()).map(|b| b == m.ipdst).unwrap_or(false);
-        m.bad == "-" && m.eth_ok && link_ok && src_ok && m.sport == self.sport && m.dport == self.cport
+        let bad_ok = m.bad == "-" || (!self.rxck && (m.bad == "udpcksum" || m.bad == "ipcksum"));
+        bad_ok && m.eth_ok && link_ok && src_ok && m.sport == self.sport && m.dport == self.cport
     }
     /// clauses (iii)-(vi) of the property on the message content
     fn content_ok(m: &SrvInfo) -> bool {
@@ -717,6 +793,27 @@ impl Oracle {
                 }
                 if let Some(v) = m.get("retries") {
                     self.retries = v.parse().unwrap();
+                }
+                return;
+            }
+            "setports" => {
+                self.sport = w[1].parse().unwrap();
+                self.cport = w[2].parse().unwrap();
+                return;
+            }
+            "setopts" => {
+                if o.lines.is_empty() {
+                    self.opts = parse_opts(w[1]);
+                } else {
+                    self.bump("setter_rejected");
+                }
+                return;
+            }
+            "setprl" => {
+                if o.lines.is_empty() {
+                    self.prl = unhex(w[1]);
+                } else {
+                    self.bump("setter_rejected");
                 }
                 return;
             }
@@ -812,8 +909,24 @@ impl Oracle {
             }
         }
         // --- transmissions
+        if o.n_other > 0 {
+            self.fail("emitted-frame-unparsable", k, op, format!("{} transmitted frame(s) do not parse as ARP or DHCP-over-UDP/IPv4", o.n_other));
+        }
+        if o.oversize > 0 {
+            self.fail("frame-exceeds-mtu", k, op, format!("{} transmitted frame(s) longer than the device MTU", o.oversize));
+        }
         for tx in &o.tx {
-            self.bump(&format!("tx_{}", tx.kind));
+            if tx.extra != self.opts {
+                self.fail("outgoing-options-not-carried", k, op, format!("{} carries options {:?}, configured {:?}", tx.kind, tx.extra.iter().map(|(k, d)| (*k, d.len())).collect::<Vec<_>>(), self.opts.iter().map(|(k, d)| (*k, d.len())).collect::<Vec<_>>()));
+            } else if !self.opts.is_empty() {
+                self.bump("tx_with_outgoing_options");
+            }
+            if tx.prl.as_deref() != Some(&self.prl[..]) {
+                self.fail("parameter-request-list-not-carried", k, op, format!("{} carries prl {:?}, configured {}", tx.kind, tx.prl.as_ref().map(|x| hex(x)), hex(&self.prl)));
+            }
+            if tx.sport != self.cport || tx.dport != self.sport {
+                self.fail("wrong-ports", k, op, format!("{} sent from port {} to {}, configured client {} server {}", tx.kind, tx.sport, tx.dport, self.cport, self.sport));
+            }
             if tx.kind == "request" {
                 self.last_req_xid = Some(tx.xid);
                 if !self.req_xids.contains(&tx.xid) {
@@ -993,6 +1106,9 @@ fn gen_header(rng: &mut Rng, id: String, arith: bool) -> Case {
     if rng.chance(3, 20) {
         put("rxbuf", "1".into());
     }
+    if rng.chance(1, 5) {
+        put("rxck", "0".into());
+    }
     if rng.chance(1, 20) {
         put("sport", "6700".into());
         put("cport", "6800".into());
@@ -1004,7 +1120,7 @@ fn gen_case(rng: &mut Rng, id: String, tier: &str) -> Case {
     let arith = rng.chance(1, 60);
     let mut c = gen_header(rng, id, arith);
     let mut sim = Sim::new(&c);
-    let (sp, cp) = (c.get_i("sport", 67), c.get_i("cport", 68));
+    let (mut sp, mut cp) = (c.get_i("sport", 67), c.get_i("cport", 68));
     let lease = (*rng.pick(LEASES)).to_string();
     let (t1, t2) = t12(rng, &lease);
     let style = rng.below(10);
@@ -1086,20 +1202,45 @@ fn gen_case(rng: &mut Rng, id: String, tier: &str) -> Case {
         }
         if r < 62 {
             // ---- API calls
-            let op = match rng.below(8) {
-                0 | 1 => format!("setmaxlease {}", *rng.pick(&["-", "1000000", "3000000", "10000000", "0", "max"])),
-                2 => "reset".to_string(),
-                3 => format!("setnaks {}", rng.below(2)),
-                4 if !arith => format!(
+            let op = match rng.below(16) {
+                0 | 1 => format!("setmaxlease {}", *rng.pick(&["-", "-", "1000000", "3000000", "10000000", "0", "max"])),
+                2 | 3 => "reset".to_string(),
+                4 => format!("setnaks {}", rng.below(2)),
+                5 if !arith => format!(
                     "setretry disc={} req={} retries={}",
                     *rng.pick(&["1000", "1000000", "10000000"]),
                     *rng.pick(&["0", "1000", "1000000", "5000000"]),
                     *rng.pick(&["0", "1", "3", "5"])
                 ),
-                5 if !arith => format!("setretry minrenew={} maxrenew={}", *rng.pick(&["1", "1000000", "60000000"]), *rng.pick(&["max", "1000000", "1"])),
+                6 if !arith => format!("setretry minrenew={} maxrenew={}", *rng.pick(&["1", "1000000", "60000000"]), *rng.pick(&["max", "1000000", "1"])),
+                7 if sim.rx_pending() == 0 => {
+                    // (only with no frame waiting in the device: a unicast datagram for the old ports would be answered with
+                    // an ICMP port-unreachable and refresh the neighbor cache, which the glue model does not cover)
+                    // port change at run time (the scripted server follows, so that both old- and new-port traffic occurs)
+                    if (sp, cp) == (67, 68) {
+                        "setports 6700 6800".to_string()
+                    } else {
+                        "setports 67 68".to_string()
+                    }
+                }
+                8 => "setrxbuf".to_string(),
+                9 | 10 => format!(
+                    "setopts {}",
+                    *rng.pick(&["-", "12:5", "12:0", "60:9,12:3", "43:100,77:60", "81:180", "12:255", "60:1,15:0,77:2,124:40", "12:256", "43:10,60:300"])
+                ),
+                11 => {
+                    if rng.chance(1, 8) {
+                        format!("setprl {}", "2a".repeat(256))
+                    } else {
+                        format!("setprl {}", *rng.pick(&["010306", "01", "0103060f1c2a", "-", "060301"]))
+                    }
+                }
                 _ => continue,
             };
-            if rng.chance(1, 3) {
+            if rng.chance(1, 2) {
+                if op.starts_with("setports") {
+                    (sp, cp) = if (sp, cp) == (67, 68) { (6700, 6800) } else { (67, 68) };
+                }
                 push(&mut sim, &mut ops, op, &mut unanswered, &mut arp_pending);
             }
             continue;
@@ -1193,6 +1334,7 @@ const BUILTIN2: &str = include_str!("../../../corpus/C18/dhcp-d16-expiry-idle-po
 const BUILTIN3: &str = include_str!("../../../corpus/C18/dhcp-offer-from-unspecified.case");
 const BUILTIN4: &str = include_str!("../../../corpus/C18/dhcp-d14b-expiry-while-silenced.case");
 const BUILTIN5: &str = include_str!("../../../corpus/C18/dhcp-happy-renew-rebind-expiry.case");
+const BUILTIN6: &str = include_str!("../../../corpus/C18/dhcp-outgoing-option-too-long.case");
 
 fn main() {
     quiet_panics();
@@ -1216,7 +1358,7 @@ fn main() {
             let mut fails = vec![];
             let mut stats = BTreeMap::new();
             let mut cases: Vec<Case> = vec![];
-            for txt in [BUILTIN, BUILTIN2, BUILTIN3, BUILTIN4, BUILTIN5] {
+            for txt in [BUILTIN, BUILTIN2, BUILTIN3, BUILTIN4, BUILTIN5, BUILTIN6] {
                 cases.extend(read_cases(&mut std::io::BufReader::new(txt.as_bytes())));
             }
             let nb = cases.len();
